@@ -172,6 +172,17 @@ CLAIMED = {
         "of the generated nets; forward-unchanged is REFUTED for negative_slope != 0 (known finding C10-negative-slope); user-model purity is decided by correspondence only; "
         "a TF CPU conv2d family that is not row-wise is avoided by the generator (skipped and counted).",
    design="5 (C10)", technique="Gallina F-net with custom-gradient override + reverse mode, induction over layers/batches; exact Qc correspondence (conv as probed dense matrices), Grad-CAM via probed bicubic matrix with tolerance"),
+ "C05": dict(
+   text="Machine-checked proofs (Coq 8.16.1, closed under the global context) of the index algebra between perturbed and reported cells of the perturbation-based methods "
+        "for every H, W, C and grid: nearest upsampling (rows H / columns W, monotone, in range, covering, exact blocks), Sobol reshape round trip, HSIC implicit/explicit "
+        "transposes compose to the identity, the two Lime/KernelShap gathers use one mapping; and of the exact-zero clauses (Occlusion positions whose covering patches miss "
+        "the region; Sobol cells whose pixels miss the region, five estimators; KernelShap on additive scores) and of the tie-tolerant 'largest value inside the region' for "
+        "Occlusion and for Sobol-Jansen before upsampling; tied to /repo on every run by nine correspondence streams (tf nearest resize as primitive, recorded perturbed "
+        "inputs, exact Occlusion, low-resolution maps from the explainer's estimator, recorded Lime masks/gathers).",
+   note="The 'largest attribution in the region' clause for RISE, HSIC, Lime, KernelShap (non-additive), Sobol after the bicubic resize and non-Jansen Sobol estimators is "
+        "statistical: support evidence under margin guards only (DESIGN section 6). Trusted: Coq kernel and vm_compute, the hand-written models of C05/C06/C07/C08, the harness, "
+        "TF/NumPy/sklearn/cv2 semantics, the row-wise score assumption. HSIC NaN at median 0 not exercised.",
+   design="5 (C05)", technique="Coq index-algebra proofs (div/mod uniqueness, grid_flat) + corollaries of C06/C07/C08 model theorems + predicate evaluation inside Coq on implementation outputs"),
 }
 PENDING_REASON = "check not built yet in this session (work in progress; planned in DESIGN.md section 5)"
 
